@@ -46,7 +46,9 @@ type ExpConfig struct {
 	NoTimeout      bool   `json:"no_timeout,omitempty"`
 	// WaitForResult: sending_queue.wait_for_result (memory queue only): ConsumeX returns the export result.
 	WaitForResult bool `json:"wait_for_result,omitempty"`
-	Mutates       bool `json:"mutates,omitempty"`
+	// BlockOnOverflow: sending_queue.block_on_overflow: a producer waits for space instead of being refused.
+	BlockOnOverflow bool `json:"block_on_overflow,omitempty"`
+	Mutates         bool `json:"mutates,omitempty"`
 }
 
 // Batched tells whether requests are re-partitioned on the way to the export function.
@@ -77,6 +79,9 @@ func (c ExpConfig) Class() string {
 	if c.WaitForResult {
 		q += "+wait_for_result"
 	}
+	if c.BlockOnOverflow {
+		q += "+block_on_overflow"
+	}
 	return fmt.Sprintf("%s/%s/batch=%s/retry=%v/consumers=%d", c.Signal, q, c.Batch, c.Retry, c.Consumers)
 }
 
@@ -89,6 +94,7 @@ func (c ExpConfig) Options() ([]exporterhelper.Option, error) {
 		q.NumConsumers = c.Consumers
 		q.QueueSize = c.QueueSize
 		q.WaitForResult = c.WaitForResult
+		q.BlockOnOverflow = c.BlockOnOverflow
 		switch c.Sizer {
 		case "items":
 			q.Sizer = exporterhelper.RequestSizerTypeItems
